@@ -319,3 +319,12 @@ def proof_stage(pid, pinned):
     if problems:
         di = 0
     return ob, di, problems
+
+
+def pinned_theorems(pid):
+    """the theorems Properties/<pid>.v states (names starting with the property id)"""
+    path = os.path.join(COQ, "theories", "Properties", pid + ".v")
+    if not os.path.exists(path):
+        return []
+    src = strip_coq_comments(open(path).read())
+    return [n for n in re.findall(r"\bTheorem\s+(\w+)", src) if n.startswith(pid + "_")]
